@@ -272,7 +272,12 @@ def run_item(item):
         rng = rng_for(item["seed"], PROPERTY, 99, item["k"])
         d = [datetime.date(2023, 1, 1), datetime.date(2016, 1, 1), datetime.date(2025, 1, 1)][item["k"] % 3]
         params, functions = env.environment(d)
-        df = popgen.population(rng, d, n_hh=int(rng.integers(3, 20)), params=params)
+        if item["k"] % 8 == 0:
+            df = popgen.population(rng, d, n_hh=400, params=params, archetypes=["selfsufficient_kids", "family_m", "single_parent", "big_family"])
+            young = (df["alter"] < 25) & (df["alter"] >= 10) & (df["p_id_elternteil_1"] >= 0) & (df["p_id_einstandspartner"] < 0)
+            df["eigenbedarf_gedeckt"] = df["eigenbedarf_gedeckt"] | (young & (rng.random(len(df)) < 0.6))
+        else:
+            df = popgen.population(rng, d, n_hh=int(rng.integers(3, 20)), params=params)
         pm = popgen.random_injective(rng, df["p_id"].tolist(), 9000)
         hm = popgen.random_injective(rng, sorted(df["hh_id"].unique().tolist()), 9000)
         df = popgen.relabel(df, pm, hm)
